@@ -54,6 +54,7 @@ func valPool() []string {
 		`int64(9223372036854775807)`, `int64(4611686018427387904)`, `int64(5)`, `int64(100)`,
 		`map[string]any{"a": nil, "b": int64(1)}`, `map[string]any{"b": int64(1), "c": int64(2)}`, `[]any{[]any{int64(1), nil}, []any{nil, int64(2)}}`,
 		`[]any{map[string]any{"k": true}}`, `uint(9223372036854775808)`,
+		`[]int{1}`, `struct{ F []int }{}`, // foreign values of types that are not comparable
 	}
 }
 
